@@ -538,7 +538,7 @@ def build_variant(cfg, variant):
         return yy is None or (isinstance(yy, list) and all(v is None for v in yy))
 
     extra = [dict(id=100 + j, f=e["f"], y=cfg["unl_label"], w=e["w"] if cfg["w"] is not None else None) for j, e in enumerate(cfg["extra"])]
-    if variant == "base":
+    if variant in ("base", "base_for_reveal", "reveal_fwd", "reveal_bwd"):
         return rows
     if variant == "labeled_only":
         return [r for r in rows if not unl(r)]
@@ -596,14 +596,48 @@ def fit_variant(cfg, variant):
     if cfg["learner"] == "pwc_table":
         Xq = np.column_stack([1000 + np.arange(len(Xq)), Xq])
     m = ctor(classes, missing)
+    if variant.startswith("reveal"):
+        # the pool loop: ONE model object and ONE caller-owned float64 weight array are re-used while the labels are
+        # revealed one at a time (in index order / in reverse order); the last fit sees exactly the base labels
+        def hidden(i):
+            return [None, None] if task == "multi" else None
+
+        labeled = [i for i, r in enumerate(rows) if not (r["y"] is None or (isinstance(r["y"], list) and all(v is None for v in r["y"])))]
+        order = labeled if variant == "reveal_fwd" else labeled[::-1]
+        w0 = None if w is None else w.copy()
+        for step in range(0, len(order)):
+            shown = set(order[: step])
+            ys = [r["y"] if i in shown else hidden(i) for i, r in enumerate(rows)]
+            if task == "clf":
+                y_step = lab.y(ys)
+            elif task == "multi":
+                y_step = lab.y(ys).reshape(n, 2) if n else np.zeros((0, 2))
+            else:
+                y_step = np.array([np.nan if v is None else v for v in ys], dtype=float)
+            try:
+                m.fit(X, y_step, **({} if w is None else dict(sample_weight=w)))
+            except Exception:  # noqa: BLE001  (too few labels for this learner: not the point here)
+                pass
+        try:
+            m.fit(X, y, **({} if w is None else dict(sample_weight=w)))
+            res = [np.array(o) for o in outs(m, Xq)]
+        except Exception as e:  # noqa: BLE001
+            return ("err", f"{type(e).__name__}: {str(e)[:80]}")
+        if w is not None and not np.array_equal(w, w0):
+            return ("ok", res + [np.array(["sample_weight array modified by fit"])])
+        return ("ok", res + ([np.array(["sample_weight array intact"])] if w is not None else []))
     try:
         m.fit(X, y, **({} if w is None else dict(sample_weight=w)))
-        return ("ok", [np.array(o) for o in outs(m, Xq)])
+        res = [np.array(o) for o in outs(m, Xq)]
+        if variant == "base_for_reveal" and w is not None:
+            res.append(np.array(["sample_weight array intact"]))
+        return ("ok", res)
     except Exception as e:
         return ("err", f"{type(e).__name__}: {str(e)[:80]}")
 
 
 def case_paired(ctx, lines, expect, cfg):
+    case_reveal(ctx, cfg)
     base = fit_variant(cfg, "base")
     exact_learner = cfg["learner"] != "pwc_rbf"
     n = len(cfg["y"])
@@ -633,6 +667,35 @@ def case_paired(ctx, lines, expect, cfg):
                 continue
             viol(ctx, cfg["learner"], "unlabeled-rows-change-predictions",
                  f"variant {variant}: outputs differ: {a.tolist()} vs {b.tolist()}", dict(cfg, variant=variant), variant)
+            break
+
+
+# learners whose `fit` starts from scratch (the partial_fit-based one accumulates by design)
+HISTORY_FREE = [l for l in LEARNERS if l != "sgd_partial"]
+
+
+def case_reveal(ctx, cfg):
+    """Reveal order: one model object + one weight array across the fits of a pool loop vs one fit on the final labels."""
+    if cfg["learner"] not in HISTORY_FREE:
+        return
+    base = fit_variant(cfg, "base_for_reveal")
+    for variant in ("reveal_fwd", "reveal_bwd"):
+        other = fit_variant(cfg, variant)
+        ctx.case(("reveal", cfg["learner"], variant, repr(cfg)), True, sample=dict(kind="reveal-loop", learner=cfg["learner"], variant=variant, y=cfg["y"], weighted=cfg["w"] is not None))
+        ctx.count(f"reveal_{cfg['learner']}")
+        if base[0] != other[0]:
+            viol(ctx, cfg["learner"], "reveal-loop-fit-succeeds-only-for-one-variant",
+                 f"single fit: {base[1] if base[0] == 'err' else 'ok'}; {variant}: {other[1] if other[0] == 'err' else 'ok'}", dict(cfg, variant=variant), variant)
+            continue
+        if base[0] == "err":
+            continue
+        for a, b in zip(base[1], other[1]):
+            same = a.shape == b.shape and (np.array_equal(a, b, equal_nan=True) if a.dtype.kind == "f" else np.array_equal(a, b))
+            if same or (cfg["learner"] == "pwc_rbf" and a.shape == b.shape and a.dtype.kind == "f" and np.allclose(a, b, rtol=1e-12, atol=1e-12, equal_nan=True)):
+                continue
+            viol(ctx, cfg["learner"], "reveal-order-changes-model",
+                 f"{variant}: a model re-fitted while labels were revealed one by one (same object, same weight array) differs from one "
+                 f"fit on the final labels: {a.tolist()} vs {b.tolist()}", dict(cfg, variant=variant), variant)
             break
 
 
